@@ -118,3 +118,127 @@ func init() {
 		return res, nil
 	})
 }
+
+// facts.goroutines: for the named function of a file, every variable that a `go func` literal captures from the
+// enclosing function and WRITES (assignment, field/index assignment, ++/--, append to it) before the first
+// `<x>.Lock()` of the literal — i.e. shared state written without the lock. The kernel model treats parsing /
+// evaluating one file as a pure function of that file; the expectation is the empty list.
+func capturedWritesOutsideLock(path, fn string) ([]string, error) {
+	fset := token.NewFileSet()
+	f, err := parser.ParseFile(fset, path, nil, 0)
+	if err != nil {
+		return nil, err
+	}
+	out := []string{}
+	for _, d := range f.Decls {
+		fd, ok := d.(*ast.FuncDecl)
+		if !ok || fd.Name.Name != fn || fd.Body == nil {
+			continue
+		}
+		ast.Inspect(fd.Body, func(n ast.Node) bool {
+			gs, ok := n.(*ast.GoStmt)
+			if !ok {
+				return true
+			}
+			lit, ok := gs.Call.Fun.(*ast.FuncLit)
+			if !ok {
+				return true
+			}
+			// names declared inside the literal (params, :=, var)
+			local := map[string]bool{}
+			for _, p := range lit.Type.Params.List {
+				for _, nm := range p.Names {
+					local[nm.Name] = true
+				}
+			}
+			var lockPos token.Pos
+			ast.Inspect(lit.Body, func(x ast.Node) bool {
+				switch y := x.(type) {
+				case *ast.AssignStmt:
+					if y.Tok == token.DEFINE {
+						for _, l := range y.Lhs {
+							if id, ok := l.(*ast.Ident); ok {
+								local[id.Name] = true
+							}
+						}
+					}
+				case *ast.ValueSpec:
+					for _, nm := range y.Names {
+						local[nm.Name] = true
+					}
+				case *ast.RangeStmt:
+					if y.Tok == token.DEFINE {
+						for _, e := range []ast.Expr{y.Key, y.Value} {
+							if id, ok := e.(*ast.Ident); ok {
+								local[id.Name] = true
+							}
+						}
+					}
+				case *ast.CallExpr:
+					if sel, ok := y.Fun.(*ast.SelectorExpr); ok && sel.Sel.Name == "Lock" && lockPos == 0 {
+						lockPos = y.Pos()
+					}
+				}
+				return true
+			})
+			root := func(e ast.Expr) string {
+				for {
+					switch y := e.(type) {
+					case *ast.Ident:
+						return y.Name
+					case *ast.SelectorExpr:
+						e = y.X
+					case *ast.IndexExpr:
+						e = y.X
+					case *ast.StarExpr:
+						e = y.X
+					case *ast.ParenExpr:
+						e = y.X
+					default:
+						return ""
+					}
+				}
+			}
+			ast.Inspect(lit.Body, func(x ast.Node) bool {
+				var targets []ast.Expr
+				var pos token.Pos
+				switch y := x.(type) {
+				case *ast.AssignStmt:
+					if y.Tok != token.DEFINE {
+						targets, pos = y.Lhs, y.Pos()
+					}
+				case *ast.IncDecStmt:
+					targets, pos = []ast.Expr{y.X}, y.Pos()
+				}
+				for _, t := range targets {
+					r := root(t)
+					if r == "" || r == "_" || local[r] {
+						continue
+					}
+					if lockPos != 0 && pos > lockPos {
+						continue
+					}
+					out = append(out, fmt.Sprintf("%s:%d %s", filepath.Base(path), fset.Position(pos).Line, r))
+				}
+				return true
+			})
+			return true
+		})
+	}
+	sort.Strings(out)
+	return out, nil
+}
+
+func init() {
+	register("facts.goroutines", func(req map[string]any) (any, error) {
+		res := map[string]any{}
+		for _, t := range [][2]string{{"pkg/rules/rules.go", "InputFromPaths"}, {"pkg/linter/linter.go", "lintWithRegoRules"}} {
+			l, err := capturedWritesOutsideLock(filepath.Join(repoDir(), t[0]), t[1])
+			if err != nil {
+				return nil, err
+			}
+			res[t[0]+":"+t[1]] = l
+		}
+		return res, nil
+	})
+}
